@@ -15,6 +15,7 @@ var (
 	errMissingResult                = reserr.InternalError(errors.New("response missing result"))
 	errInvalidResponse              = reserr.InternalError(errors.New("invalid service response"))
 	errInvalidValue                 = reserr.InternalError(errors.New("invalid value"))
+	errMissingIdx                   = reserr.InternalError(errors.New("missing idx"))
 	errInvalidValueEmptyRID         = reserr.InternalError(errors.New(`invalid value: resource references requires a non-empty "rid" value`))
 	errInvalidValueAmbiguous        = reserr.InternalError(errors.New(`invalid value: ambiguous value type`))
 	errInvalidValueObjectNotAllowed = reserr.InternalError(errors.New(`invalid value: nested json object must be wrapped as a data value`))
@@ -663,13 +664,21 @@ func EncodeRemoveEvent(d *RemoveEvent) json.RawMessage {
 
 // DecodeRemoveEvent decodes a JSON encoded RES-service collection remove event
 func DecodeRemoveEvent(data json.RawMessage) (*RemoveEvent, error) {
-	var d RemoveEvent
+	var d struct {
+		Idx *int `json:"idx"`
+	}
 	err := json.Unmarshal(data, &d)
 	if err != nil {
 		return nil, err
 	}
 
-	return &d, nil
+	// Assert the index is set. The event payload is passed on to the clients
+	// as is, which cannot apply a remove event without an index.
+	if d.Idx == nil {
+		return nil, errMissingIdx
+	}
+
+	return &RemoveEvent{Idx: *d.Idx}, nil
 }
 
 // DecodeAccessResponse decodes a JSON encoded RES-service access response
